@@ -37,6 +37,7 @@ type Result struct {
 	Sig        string              `json:"sig,omitempty"` // schedule / history signature for distinctness counting
 	FreeRun    bool                `json:"freerun,omitempty"`
 	WallUS     int64               `json:"wall_us"`
+	JobFrom    int                 `json:"job_from"` // first run index of the process that executed this run
 }
 
 // Run carries the per-run recording state shared by all worlds.
